@@ -85,6 +85,32 @@ fn symbols_of<A: Alphabet>(s: &[usize]) -> Vec<A::Symbol> {
     s.iter().map(|&i| table[i].unwrap()).collect()
 }
 
+/// The AVX2 pipelines only exist on hosts with AVX2.  On any other host the `a`
+/// and `da` backends fall back to the generic kernel (the check then still runs,
+/// with a warning on stderr, instead of dying with SIGILL / a false alarm).
+fn have_avx2() -> bool {
+    #[cfg(any(target_arch = "x86", target_arch = "x86_64"))]
+    {
+        std::arch::is_x86_feature_detected!("avx2")
+    }
+    #[cfg(not(any(target_arch = "x86", target_arch = "x86_64")))]
+    {
+        false
+    }
+}
+
+fn effective(b: &str) -> &str {
+    if have_avx2() {
+        b
+    } else {
+        match b {
+            "a" => "g",
+            "da" => "dg",
+            x => x,
+        }
+    }
+}
+
 fn force(b: &str) {
     let arm = match b {
         "dg" => Some(Dispatch::Generic),
@@ -132,6 +158,7 @@ generic_cols!(U1, U2, U4, U16);
 impl<A: Alphabet> Cols<A> for U32 {
     const ALL: bool = true;
     fn stripe_into(b: &str, seq: &[A::Symbol], buf: &mut StripedSequence<A, Self>) {
+        let b = effective(b);
         match b {
             "g" => {
                 let pli = Pipeline::<A, _>::generic();
@@ -151,6 +178,7 @@ impl<A: Alphabet> Cols<A> for U32 {
         }
     }
     fn stripe(b: &str, seq: &[A::Symbol]) -> StripedSequence<A, Self> {
+        let b = effective(b);
         match b {
             "g" => {
                 let pli = Pipeline::<A, _>::generic();
@@ -485,6 +513,9 @@ fn main() {
         }
         "run" => {
             silence_panics();
+            if !have_avx2() {
+                eprintln!("stripe harness: this host has no AVX2: backends a/da run the generic kernel");
+            }
             for line in stdin_lines() {
                 let (_id, f) = fields(&line);
                 let ops: Vec<Op> = f["ops"].split(';').filter(|s| !s.is_empty()).map(parse_op).collect();
